@@ -488,6 +488,22 @@ def r6(ctx, r):
     r.instance()
     r.expect(kvar is not None and pa.entails(main[0], Or(Not(A("http10")), A("ka"), A("will"))), p, main[0], "HTTP/1.0 kept alive by default", "an HTTP/1.0 request without a keep-alive option is answered on a path where the close intent is not "
              "set: the response says keep-alive and the connection stays open — an HTTP/1.0 client that reads to EOF hangs", okdesc="HTTP/1.0 without keep-alive ⇒ close intent")
+    # the decision belongs to THIS request: processHttpRequest also reads per-connection fields (SessionInfo::httpVersion,
+    # connectionKeepAlive); with pipelining several requests of one connection are framed before the first is answered, so a
+    # field written from the framing of a LATER request would decide the response of an earlier one.  Nobody writes them.
+    SI = HS + "::SessionInfo"
+    nread = 0
+    for fld in ("connectionKeepAlive", "httpVersion"):
+        nread += sum(1 for x in p.nodes.values() if x.get("k") == "member" and x["n"] == SI + "::" + fld)
+        for g in ctx.fb().in_file(HSF):
+            if not g.ok:
+                continue
+            for (e, n, k) in common.field_writes(g, SI + "::" + fld):
+                r.instance()
+                r.fail(g, e, "per-connection close state written", "%s writes SessionInfo::%s: processHttpRequest reads it for whichever request it is answering, so with two pipelined requests the value noted while framing the "
+                       "second (e.g. its `Connection: close`) closes the connection after the FIRST response — the first is announced `Connection: close` though it did not ask, the second is never answered" % (short(g.name), fld))
+    r.instance()
+    r.ok("SessionInfo close state is never written (%d reads in processHttpRequest)" % nread)
     # header set from connectionHeader before serialisation
     sh = [e for e in p.stmts() if e.node.get("k") == "mcall" and last(e.node.get("callee", "")) == "setHeader" and key_of(e.node.get("obj")) == "httpRes" and [y.get("v") for y in walk(e.node["args"][0]) if y.get("k") == "str"] == ["Connection"]]
     tw = [e for e in p.stmts() if e.node.get("k") == "mcall" and last(e.node.get("callee", "")) == "toWireFormat" and key_of(e.node.get("obj")) == "httpRes"]
